@@ -14,7 +14,8 @@ RULE = ("Hypothesis-generated (operator, circuit, initial state) triples: qubit 
         "optional user initial statevector. Every case is evaluated through each applicable route and compared with "
         "sum_k c_k <psi|P_k|psi> computed by an independent dense simulator (post-selected branch state, or the "
         "probability-weighted mixture without post-selection). Non-trivial = >=2 non-identity words with non-zero "
-        "coefficient AND >=1 X or Y factor AND the (branch) state has >=2 amplitudes >1e-6. "
+        "coefficient AND >=1 X or Y factor AND the (branch) state has >=2 amplitudes >1e-6 "
+        "(lattice part: single-word operators with N in {1,2,3,5,10} shots, non-trivial = the exact mean of the word is not a lattice point (N-2k)/N). "
         "Distinct = distinct canonical JSON of the case.")
 ASSUMPTIONS = ["numpy linear algebra", "reference gate table and Pauli application in vlib/refsim.py (self-tested)",
                "measurement branches by projection + renormalisation in vlib/h_c02.py (self-tested)",
@@ -453,6 +454,130 @@ def sampled(ctx):
 @part("sampled_postselect", quick=12, thorough=400)
 def sampled_postselect(ctx):
     sampled_search(ctx, "sampled_postselect", ["postselect"])
+
+
+# ------------------------------------------------------------------------------------------------ sampling lattice (single Pauli word)
+
+def lattice_points(N):
+    """Possible means of N draws of +-1: (N - 2k)/N, k = 0..N."""
+    return [(N - 2 * k) / N for k in range(N + 1)]
+
+
+def on_lattice(x, N, tol=1e-9):
+    return any(abs(x - m) <= tol for m in lattice_points(N))
+
+
+@part("lattice", quick=280, thorough=8000)
+def lattice(ctx):
+    """Exact facts of sampling beyond the mean. For ONE Pauli word P with coefficient c (plus, optionally, a constant) and N shots,
+    the estimate is c*m (+constant) with m = (N-2k)/N for an integer k - never the exact expectation value unless that is a lattice
+    point; the documented variance formula evaluated on sampled frequencies is |c|^2 (1-m'^2) with m' on the same lattice, and the
+    standard error is sqrt of that over n_shots. Real and imaginary parts of a complex coefficient are sampled separately.
+    With post-selection the lattice is that of the M surviving shots, M read from the backend's mid-circuit frequencies."""
+    from tangelo.linq import get_backend
+    nz = st.one_of(st.floats(0.2, 3, allow_nan=False), st.floats(-3, -0.2, allow_nan=False), st.sampled_from([1.0, -1.0, 0.5]))
+
+    @st.composite
+    def cases(draw):
+        flavour = draw(st.sampled_from(["pure", "mixed", "pure", "postselect", "pure"]))
+        c = draw(pure_cases(4, 8, max_terms=1)) if flavour == "pure" else draw(measured_cases(3, 6, max_meas=2, max_terms=1))
+        n = S.circuit_width(c)
+        kind = draw(st.sampled_from(["Z-only", "any", "Z-only", "any"]))
+        word = draw(S.pauli_terms(n, min_weight=1))
+        if kind == "Z-only":
+            word = [[q, "Z"] for q, _ in word]
+        terms = [[word, draw(nz), draw(nz)]]
+        if draw(st.integers(0, 3)) == 2:
+            terms.insert(draw(st.integers(0, 1)), [[], draw(nz), draw(nz)])
+        c["op"] = {"ctype": draw(st.sampled_from(["float", "np.float64", "int", "float"] + ([] if flavour == "postselect" else ["complex"]))),
+                   "terms": terms}
+        c["flavour"] = flavour
+        c["shots"] = draw(st.sampled_from([1, 2, 3, 5, 10]))
+        c["repeats"] = 2
+        return c
+
+    def body(case):
+        n = S.circuit_width(case)
+        N = case["shots"]
+        init = S.build_statevector(case["init"], n)
+        coefs = op_coefs(case["op"])
+        terms = ref_terms(coefs)
+        word = [t for t in terms if t][0]
+        c, const = terms[word], terms.get((), 0j)
+        kw, fl = {}, case["flavour"]
+        if fl == "pure":
+            psi = R.run(case["gates"], n, init)
+            e = H.term_expectations(terms, psi, n)[word]
+        elif fl == "mixed":
+            brs = H.branches(case["gates"], n, init)
+            e, psi = H.mixed_term_expectations(terms, brs, n)[word], brs[0][2]
+        else:
+            brs, (bits, p, psi) = pick_branch(case, n, init, 0.2499)
+            e = H.term_expectations(terms, psi, n)[word]
+            kw = {"desired_meas_result": bits}
+        iv = lambda: None if init is None else init.copy()
+        labs = {"flavour=" + fl, f"shots={N}", "Z-only-word" if all(p_ == "Z" for _, p_ in word) else "XY-word",
+                "ctype=" + case["op"]["ctype"]} | circ_labels(case, n)
+        if len(word) < n:
+            labs.add("word-with-idle-qubits")
+        if () in terms:
+            labs.add("constant-term")
+        if 1e-6 < abs(e) < 1 - 1e-6:
+            labs.add("non-lattice-mean" if not on_lattice(e, N, 1e-6) else "mean-on-lattice")
+        parts = [("real", c.real, const.real)] + ([("imag", c.imag, const.imag)] if is_complex_op(coefs) else [])
+
+        def shots_used(be):
+            """Number of samples behind the last single-word evaluation."""
+            if fl != "postselect":
+                return N
+            M = be.mid_circuit_meas_freqs.get(bits, 0.0) * N
+            if abs(M - round(M)) > 1e-6 or round(M) < 1:
+                raise Fail(f"mid-circuit frequency of {bits!r} is {be.mid_circuit_meas_freqs.get(bits)} with N={N}", sig="lattice:postselect:mid-circuit-frequency")
+            return int(round(M))
+
+        def call(fn):
+            try:
+                return fn(build_op(coefs), S.build_circuit(case), initial_statevector=iv(), **kw)
+            except TypeError as ex:
+                if fl == "postselect" and "'ValueError'" in str(ex):
+                    raise Skip("no shot survived post-selection")     # Tangelo has no estimate then (it fails on an empty histogram)
+                raise
+
+        for r in range(case["repeats"]):
+            be = get_backend("cirq", n_shots=N)
+            what = f"n_shots={N}, {fl}, single word {word} with coefficient {coefs[word]!r}"
+            ctx.np_seed({"r": r, "e": case})
+            got = to_complex(call(be.get_expectation_value))
+            M = shots_used(be)
+            for nm, cp, k0 in parts:
+                x = ((got.real if nm == "real" else got.imag) - k0) / cp
+                if not on_lattice(x, M):
+                    raise Fail(f"{what}: {nm} part of the estimate is c*{x!r} (+constant); with {M} samples of a +-1 observable it has to be "
+                               f"c*(M-2k)/M for an integer k (exact expectation value of the word: {e})", sig=f"lattice:{fl}:estimate")
+            if not is_complex_op(coefs) and abs(got.imag) > 1e-9:
+                raise Fail(f"{what}: real operator, estimate {got}", sig=f"lattice:{fl}:estimate")
+            # variance: documented formula on the sampled frequencies of a fresh sample
+            ctx.np_seed({"r": r, "v": case})
+            var = to_complex(call(be.get_variance))
+            # (get_variance also runs the circuit for a constant term, so with post-selection the mid-circuit record may belong to
+            # that run: the number of surviving shots behind the word is then only known to lie in 1..N)
+            Ms = list(range(1, N + 1)) if (fl == "postselect" and () in terms) else [shots_used(be)]
+            M = Ms if len(Ms) > 1 else Ms[0]
+            cands = [sum(cp * cp * (1 - m * m) for (_, cp, _), m in zip(parts, ms))
+                     for M_ in Ms for ms in __import__("itertools").product(lattice_points(M_), repeat=len(parts))]
+            vtol = 1e-9 * max(1.0, abs(c) ** 2)
+            if abs(var.imag) > vtol or not any(abs(var.real - v) <= vtol for v in cands):
+                raise Fail(f"{what}: reported variance {var} is not |c|^2 (1 - m^2) for any sample mean m = (M-2k)/M, M={M} "
+                           f"(value for the exact distribution: {abs(c) ** 2 * (1 - e * e)})", sig=f"lattice:{fl}:variance")
+            if fl != "postselect":
+                ctx.np_seed({"r": r, "s": case})
+                se = to_complex(be.get_standard_error(build_op(coefs), S.build_circuit(case), initial_statevector=iv(), **kw))
+                if abs(se.imag) > vtol or not any(abs(se.real ** 2 * N - v) <= vtol for v in cands):
+                    raise Fail(f"{what}: reported standard error {se} is not sqrt(|c|^2 (1 - m^2) / n_shots) for any sample mean m",
+                               sig=f"lattice:{fl}:standard-error")
+        return (1e-6 < abs(e) < 1 - 1e-6) and not on_lattice(e, N, 1e-6), labs
+
+    ctx.search("lattice", cases(), body, shrink_calls=150)
 
 
 # ------------------------------------------------------------------------------------------------ histories on one backend / one operator
